@@ -132,6 +132,7 @@ def operation_discipline(P, rep, rule="R1"):
             # 'replace' clears the compositions the model does not list: after the loop over `compositions`, still inside the
             # model's range test, `if (operation == REPLACE) return 0.0;`
             clears = []
+            early = []
             for r in F.walk():
                 if r.get("k") == "ReturnStmt" and r.get("c") and sc(r["c"][0]).get("k") in ("FloatingLiteral", "IntegerLiteral") and float(sc(r["c"][0]).get("v")) == 0.0:
                     g = astq.enclosing(F, r, ("IfStmt",))
@@ -150,11 +151,24 @@ def operation_discipline(P, rep, rule="R1"):
                                 prev_loop = True
                         if prev_loop:
                             clears.append(r)
+                            # nothing inside the model's range hands the incoming value back before the clearing is reached
+                            for st in blk["c"]:
+                                if st is g:
+                                    break
+                                for y in F.walk(st):
+                                    if y.get("k") == "ReturnStmt" and y.get("c") and not astq.enclosing(F, y, ("LambdaExpr",)) \
+                                            and (astq.is_ref_to(sc(y["c"][0]), inc) or is_unmodified_copy(P, F, sc(y["c"][0]), inc, y)):
+                                        early.append(y)
             if len(clears) != 1:
                 bad.append((F.body, "no `if (operation == REPLACE) return 0.0;` after the loop over the listed compositions (unlisted compositions are not cleared by replace)"))
                 rep.violation(rule, "%s: %s" % (F.qn, bad[-1][1]), F.loc, F.qn, "", "operation replace does not clear the compositions the model does not list",
                               key="%s|%s|clear" % (rule, F.qn), witness="replace model listing composition 0 over a feature that painted composition 1")
                 bad.pop()
+                bad.append(None)
+            for y in early:
+                rep.violation(rule, "%s: the incoming value is returned inside the model's range before `if (operation == REPLACE) return 0.0;`" % F.qn,
+                              F.nloc(y), F.qn, norm.render(P, y)[:100], "operation replace does not clear the compositions the model does not list on this path",
+                              key="%s|%s|early" % (rule, F.qn), witness="replace model listing composition 0 over a feature that painted composition 1")
                 bad.append(None)
         bad = [b for b in bad if b is not None] if any(b is None for b in bad) else bad
         if not bad and not (kind == "Composition" and len(clears) != 1):
